@@ -4,7 +4,7 @@ from fractions import Fraction as F
 from scen import *
 from opsprof import CYCLE
 
-def build(rng, perm, refs, L, rebind, shared, leave=False):
+def build(rng, perm, refs, L, rebind, shared, leave=False, rebuild=False):
     """perm: order of first binding of actions 0..n-1; refs[i] = (kind, target index or 'absent') for action i"""
     ids = Ids()
     n = len(perm)
@@ -44,6 +44,10 @@ def build(rng, perm, refs, L, rebind, shared, leave=False):
     leave_at = rng.randrange(1, L) if (leave and shared) else -1
     for k in range(L):
         steps.append(frame(raw(keys=[x for x in range(4) if rng.random() < .6] + [m for m in (100, 102, 104) if rng.random() < .5]), rand_dt(rng)))
+        if rebuild and k == L // 2:
+            # a rebuild while keys are held and actions are Fired: the new instances start at rest, so what later-bound and
+            # self references are shown in the next frame is None
+            steps.append(sop(REBUILD))
         if k == leave_at:
             # one of the two holders of the shared context leaves in mid-run: the instance goes on for the other one, and
             # what its conditions are shown next frame is still the state of the frame before
@@ -115,3 +119,26 @@ def describe(stage, clause): return CLAUSES.get(clause, 'clause %d' % clause)
 def matches_known(k, case, verdict): return False
 TRUSTED = TRUSTED_BASE + ['ActionsData read by the wrappers through its public map (HashMap iteration order is not relied on: entries are sorted)']
 ASSUMES = ['block-by and accumulate-by references are attached at action level in this profile; the event clause applies to actions whose only events-only blockers are those']
+
+
+def rebuild_cases(tier, rng):
+    for kind in REFK[:4]:
+        for direction in ('later', 'self', 'earlier'):
+            for shared in (False, True):
+                refs = [('none', 0), ('none', 0), ('none', 0)]
+                refs[1] = (kind, {'earlier': 0, 'later': 2, 'self': 1}[direction])
+                yield (build(rng, (0, 1, 2), refs, 8, None, shared, rebuild=True), 'rebuild-%s-%s' % (kind, direction))
+
+_cases0 = cases
+def cases(tier, rng):
+    for x in _cases0(tier, rng): yield x
+    for x in rebuild_cases(tier, rng): yield x
+STAGES[0]['cases'] = cases
+STAGES.append(dict(name='rebuild', mode='app', coq='Check.C07c', profile=('Proofs.JudgeC07P', '(fun sc => JudgeC07P.spawns_declared sc && JudgeC07P.shared_specb sc && JudgeC07P.nonconsumingb sc && JudgeC07P.sites_distinctb sc)', 'C07_app_judgement_sound / _transfer (the stage is judged by Check.C07c)'),
+                   cases=rebuild_cases, nontrivial=nontrivial, shard=25, exhaustive={'thorough': True, 'quick': True},
+                   rule='the reference scenarios of the visibility stage with a RebuildInputContexts in mid-run while keys are held and actions are Fired; judged by the registry judgement of C07: every rebuilt instance starts at rest (state None, no events, zero value and durations), so the previous-frame state its references are shown next is None'))
+_describe13 = describe
+def describe(stage, clause):
+    if stage == 'rebuild':
+        return {3: 'an instance built by the rebuild does not start at rest: stale action data survives, and forward / self references are shown a state that is not the previous frame\'s of the new instance', 2: 'instances were not built as the rebuild requires', 1: 'registry and components disagree'}.get(clause, 'clause %d' % clause)
+    return _describe13(stage, clause)
